@@ -36,6 +36,7 @@ type PropSpec struct {
 	Bounded   []string
 	Standin   []string // classes of the bounded formatter stand-in owned by this property
 	Extra     func(e *Engine) []*Obligation // further obligations decided outside the path executor (ALIAS, READS)
+	Pairs     bool                          // bounded stand-in: pairs of equivalent spellings (C08)
 }
 
 type KnownFinding struct {
@@ -105,6 +106,8 @@ func propSpecs() map[string]*PropSpec {
 				return strings.Contains(o.Name, "C08:") || o.Kind == "FRAME" && !o.PhaseB
 			},
 			Extra: func(e *Engine) []*Obligation { return append(e.aliasObligations(), e.readsObligations()...) },
+			Pairs: true,
+			Bounded: []string{"BOUNDED (not counted as proved): for an enumerated set of pairs of texts related by the meaning-preserving rewrites the property lists (each rewrite in each syntactic context, on base programs using every field kind), the real compiler produces byte-identical file sets for all six targets from both texts"},
 			Decided: []string{"type aliases: every spelling of a basic-type token (alias table read from the grammar) is normalised to one name by getBasicType and by each GetType method that holds a spelling (ALIAS, complete over the finite alias table)",
 				"comments, doc strings, whitespace, separators, positions: no generator function and no model function it calls loads Doc / Description / Line / Column or a raw type spelling outside the normalisers (READS, per function); the model builder calls no hidden-channel or optional-separator accessor",
 				"an attribute applies only to the field it is written on: every store executed while a field definition with attributes is visited targets an object allocated by that visit (FRAME on VisitFieldDefinitionWithAttribute and the functions it calls)",
@@ -387,6 +390,36 @@ func report(e *Engine, spec *PropSpec, r *propResult, tier string, seed int, wal
 			standinInfo = map[string]interface{}{"corpus_inputs": standinCount, "formatted": len(standinOut["formatted"]), "syntax_errors": len(standinOut["syntax-error"]), "failing_pairs": len(names), "known": nKnown, "classes": spec.Standin,
 				"bound": "corpus enumerated by goverif/standin.go from grammar/PacketDsl.g4 (every alternative / optional element toggled, <=3 rounds of choice-point discovery), key lists of length 1..16, comments at <=4 token boundaries per sentence, 2 whitespace re-layouts per input"}
 		}
+	}
+	if spec.Pairs {
+		e.runSpellPairs()
+		if pairsErr != nil {
+			violations++
+			p := filepath.Join(outRoot, "replays", spec.ID, "pairs-harness.json")
+			writeJSON(p, map[string]interface{}{"property": spec.ID, "obligation": "BOUNDED:" + spec.ID + ":pair:harness", "verifier_output": pairsErr.Error()})
+			lines = append(lines, fmt.Sprintf("VIOLATION property=%s replay=%s no-failing-input-found", spec.ID, p))
+		}
+		var names []string
+		for n := range pairsFail {
+			names = append(names, n)
+		}
+		sort.Strings(names)
+		nKnown := 0
+		for _, n := range names {
+			o := pairsFail[n]
+			if k, ok := known[n]; ok {
+				nKnown++
+				knownHit = append(knownHit, n)
+				lines = append(lines, fmt.Sprintf("KNOWN-FINDING: property=%s %s %s", spec.ID, n, k.What))
+				continue
+			}
+			violations++
+			p := filepath.Join(outRoot, "replays", spec.ID, sanitize(n)+".reproduced.json")
+			writeJSON(p, map[string]interface{}{"property": spec.ID, "obligation": n, "rewrite": o.Pair.Label, "input_a": o.Pair.A, "input_b": o.Pair.B, "observed": o.Note, "entry": "parser.ParseFile + the six generators (real code, go test -overlay)"})
+			lines = append(lines, fmt.Sprintf("VIOLATION property=%s replay=%s", spec.ID, p))
+		}
+		standinInfo = map[string]interface{}{"pairs": pairsCount, "pairs_run": pairsDone, "failing_pairs": len(names), "known": nKnown,
+			"bound": "pairs enumerated by goverif/spell.go: every alias of every basic-type token (from the grammar) in every context it can occur (field, repeat, MetaData entry, inline object, length field in both placements, checksum field in both placements, match key, option value), string/char[], zchar/NUL right padding, default padding, attribute placement, explicit default options, key lists, MetaData-typed fields, separators, whitespace, comments, doc strings, attribute locality"}
 	}
 	var vanished []string
 	for n, st := range ledger.Obligations {
